@@ -25,7 +25,7 @@ func InitGenesis(ctx sdk.Context, k keeper.Keeper, state *types.GenesisState) {
 	for _, item := range state.KillSwitchParams {
 		err := k.SetKillSwitchData(ctx, item)
 		if err != nil {
-			return
+			continue
 		}
 	}
 
